@@ -1,45 +1,59 @@
 (* C03 — the returned result is a faithful, complete record of every step.
    Only statements here; the model is Model/Result.v, the proofs are in Proofs/Result.v.
    Programs = arbitrary lists of model functions (any transformer of the detector, may depend on the
-   step index); schedules of any length; both layouts; debug on/off; scene/data of any type. *)
+   step index, may change a container in place or give it a new buffer); schedules of any length; both
+   layouts; debug on/off; scene/data of any type.  `tbl` = the declarative part of the code (which read-outs copy
+   the container's buffer, which time labels a slice, which containers are exported / captured under which name);
+   the theorems are stated for every table with the stated property and instantiated, at the end, at the table
+   regenerated from the source on every run (Gen_C03.src_tables). *)
 From Coq Require Import ZArith List Bool String Lia Sorted.
 From PyxelV Require Import Model.Result Proofs.Result.
+From PyxelGen Require Import Gen_C03.
 Import ListNotations.
 Open Scope Z_scope.
 
-(* ---- the merge along `time` loses no slice exactly when the labels are pairwise distinct *)
-Theorem C03_merge_lossless_iff_distinct_labels : forall xs : list slice,
-  (exists r, assemble xs = Some r /\ List.length r = List.length xs) <-> NoDup (map fst xs).
-Proof. exact merge_lossless_iff_distinct_labels. Qed.
-Print Assumptions C03_merge_lossless_iff_distinct_labels.
-
-(* ---- and it never invents a slice: the labels of the result are exactly the readout labels, sorted *)
-Theorem C03_merge_labels : forall xs r,
-  assemble xs = Some r ->
-  StronglySorted Z.lt (map fst r) /\ (forall l, In l (map fst r) <-> In l (map fst xs)) /\
-  (List.length r <= List.length xs)%nat.
+(* ---- the concatenation along `time` loses no slice and invents none: for EVERY list of labels the result
+   has the readout labels, in readout order, one slice per readout *)
+Theorem C03_concat_complete : forall xs : list slice,
+  map fst (assemble xs) = map fst xs /\ List.length (assemble xs) = List.length xs.
 Proof. exact assemble_labels. Qed.
-Print Assumptions C03_merge_labels.
+Print Assumptions C03_concat_complete.
 
-(* ---- slices: for every program, every strictly increasing schedule (what Readout accepts), every start
-   time, both layouts, debug on/off: the run succeeds and the bucket dataset is, slice for slice,
-   (start + t_i, what the detector held at the end of step i) -- one slice per readout, in order.
-   Hypothesis on the image: the float round trip of the merge leaves it alone (see C03_image_exact). *)
-Theorem C03_slices :
-  forall (Scene Data : Type) (empty_scene : Scene) (scene_is_empty : Scene -> bool)
+(* ---- labels: for every program and every schedule the slices are labelled start + t_i, in order, one per
+   readout -- provided the label is taken from detector.absolute_time *)
+Theorem C03_labels :
+  forall (Scene Data : Type) (empty_scene : Scene) (scene_is_empty : Scene -> bool) (tbl : tables)
          (c : config Scene Data) (d_init : det Scene Data),
-  StronglySorted Z.lt (c_times c) ->
-  image_stable (map view (ends_of empty_scene c d_init)) ->
-  exists t, exposure empty_scene scene_is_empty c d_init = Some t /\
-    t_buckets t = combine (map (Z.add (c_start c)) (c_times c)) (map view (ends_of empty_scene c d_init)) /\
-    List.length (t_buckets t) = List.length (c_times c) /\
-    forall b, bucket_slices (t_buckets t) b =
-      combine (map (Z.add (c_start c)) (c_times c))
-              (map (fun d => get (view d) b) (ends_of empty_scene c d_init)).
+  tb_label tbl = LAbsolute ->
+  map fst (t_buckets (exposure empty_scene scene_is_empty tbl c d_init)) = map (Z.add (c_start c)) (c_times c) /\
+  List.length (t_buckets (exposure empty_scene scene_is_empty tbl c d_init)) = List.length (c_times c).
 Proof.
-  intros. destruct (slices_faithful empty_scene scene_is_empty c d_init H H0) as [t [He [Hb Hl]]].
-  exists t. split; [exact He|]. split; [exact Hb|]. split; [exact Hl|].
-  intros b. rewrite Hb. unfold labels. rewrite bucket_slices_combine, map_map. reflexivity.
+  intros. rewrite <- (labels_absolute tbl H c). apply labels_faithful.
+Qed.
+Print Assumptions C03_labels.
+
+(* ---- slices: for every program, every schedule, every start time, both layouts, debug on/off: the bucket
+   dataset is, slice for slice, (start + t_i, what the detector held at the end of step i) -- one slice per
+   readout, in order.  Hypotheses on the tables: every read-out that does not copy belongs to a container that
+   gets a new buffer at each reset (slices_safe), the label is the absolute time, every variable is read out
+   of the container of the same name; on the program: the dtype restoration leaves the images alone (see
+   C03_image_exact). *)
+Theorem C03_slices :
+  forall (Scene Data : Type) (empty_scene : Scene) (scene_is_empty : Scene -> bool) (tbl : tables)
+         (c : config Scene Data) (d_init : det Scene Data),
+  slices_safe tbl -> tb_label tbl = LAbsolute -> exports_all tbl ->
+  image_stable (map view (ends_of empty_scene c d_init)) ->
+  let t := exposure empty_scene scene_is_empty tbl c d_init in
+  t_buckets t = combine (map (Z.add (c_start c)) (c_times c)) (map view (ends_of empty_scene c d_init)) /\
+  List.length (t_buckets t) = List.length (c_times c) /\
+  forall b, bucket_slices (t_buckets t) b =
+    combine (map (Z.add (c_start c)) (c_times c))
+            (map (fun d => get (view d) b) (ends_of empty_scene c d_init)).
+Proof.
+  intros. destruct (slices_faithful empty_scene scene_is_empty tbl c d_init H H1 H2) as [Hb Hl].
+  rewrite (labels_absolute tbl H0 c) in Hb.
+  split; [exact Hb|]. split; [exact Hl|].
+  intros b. unfold t. rewrite Hb. rewrite bucket_slices_combine, map_map. reflexivity.
 Qed.
 Print Assumptions C03_slices.
 
@@ -54,98 +68,94 @@ Proof. exact extract_values. Qed.
 Print Assumptions C03_view_keeps_values.
 
 (* ---- the image hypothesis holds when the image is initialised in no step, or in every step with one
-   unsigned dtype and values below 2^8 / 2^16 / 2^32 / 2^53 (uint8 / 16 / 32 / 64) *)
+   dtype -- whatever the values (no bit budget any more: the slices never leave their integer dtype) *)
 Theorem C03_image_exact : forall snaps, image_uniform snaps -> image_stable snaps.
 Proof. exact uniform_image_stable. Qed.
 Print Assumptions C03_image_exact.
 
 (* ---- the image keeps the unsigned type the models wrote (no hypothesis on the values) *)
 Theorem C03_image_dtype :
-  forall (Scene Data : Type) (empty_scene : Scene) (scene_is_empty : Scene -> bool)
-         (c : config Scene Data) (d_init : det Scene Data) (t_ : dtype) tr,
+  forall (Scene Data : Type) (empty_scene : Scene) (scene_is_empty : Scene -> bool) (tbl : tables)
+         (c : config Scene Data) (d_init : det Scene Data) (t_ : dtype),
+  slices_safe tbl -> exports_all tbl ->
   Forall (fun d => image_has_dtype t_ (d_snap d)) (ends_of empty_scene c d_init) ->
-  exposure empty_scene scene_is_empty c d_init = Some tr ->
-  Forall (fun ls => image_has_dtype t_ (snd ls)) (t_buckets tr).
+  Forall (fun ls => image_has_dtype t_ (snd ls)) (t_buckets (exposure empty_scene scene_is_empty tbl c d_init)).
 Proof. exact @image_dtype_kept. Qed.
 Print Assumptions C03_image_dtype.
 
-(* ---- the FULL slice statement (without the bit budget on uint64 images) is false of the code as
-   written: with >= 2 readouts the merge sends the image through float64 *)
+(* ---- the FULL slice statement for uint64 images (refuted in round 1: the merge sent the image through
+   float64): every uint64 value, 2^53 + 1 included, comes back as written, for any number of readouts *)
 Definition u64_img (v : Z) : snapshot :=
   {| s_photon := None; s_charge := None; s_pixel := None; s_signal := None;
      s_image := Some {| a_dt := U64; a_shape := [1; 1]; a_vals := [v] |} |}.
 
-Definition C03_slices_u64_full : Prop :=
+Theorem C03_slices_u64 :
   forall xs : list slice, StronglySorted Z.lt (map fst xs) ->
   (forall x, In x xs -> exists v, 0 <= v < 2 ^ 64 /\ snd x = u64_img v) ->
-  assemble xs = Some xs.
-
-Theorem C03_slices_u64_refuted : ~ C03_slices_u64_full.
+  assemble xs = xs.
 Proof.
-  intros H.
-  specialize (H [(1, u64_img (2 ^ 53 + 1)); (2, u64_img 7)]).
-  assert (A : assemble [(1, u64_img (2 ^ 53 + 1)); (2, u64_img 7)]
-              = Some [(1, u64_img (2 ^ 53)); (2, u64_img 7)]) by (vm_compute; reflexivity).
-  rewrite A in H.
-  assert (E : Some [(1, u64_img (2 ^ 53)); (2, u64_img 7)] = Some [(1, u64_img (2 ^ 53 + 1)); (2, u64_img 7)]).
-  { apply H.
-    - simpl. repeat constructor.
-    - intros x [<-|[<-|[]]]; eexists; (split; [|reflexivity]); lia. }
-  vm_compute in E. discriminate.
+  intros xs _ H. apply assemble_stable. intros x y Hx Hy.
+  destruct (H x Hx) as [v [_ Ex]]. destruct (H y Hy) as [w [_ Ey]]. rewrite Ex, Ey. reflexivity.
 Qed.
-Print Assumptions C03_slices_u64_refuted.
+Print Assumptions C03_slices_u64.
 
 (* ---- both layouts carry the same values; the layout only chooses the path of the bucket node (a
    non-empty scene forces the hierarchical one) *)
 Theorem C03_layouts_agree :
-  forall (Scene Data : Type) (empty_scene : Scene) (scene_is_empty : Scene -> bool)
+  forall (Scene Data : Type) (empty_scene : Scene) (scene_is_empty : Scene -> bool) (tbl : tables)
          (c : config Scene Data) (d_init : det Scene Data),
-  match exposure empty_scene scene_is_empty (with_layout c Flat) d_init,
-        exposure empty_scene scene_is_empty (with_layout c Hier) d_init with
-  | Some a, Some b =>
-      t_buckets a = t_buckets b /\ t_inter a = t_inter b /\ t_scene a = t_scene b /\
-      t_data a = t_data b /\ t_bucket_path b = "/bucket"%string /\
-      t_bucket_path a = (if scene_is_empty (t_scene a) then "/" else "/bucket")%string
-  | None, None => True
-  | _, _ => False
-  end.
+  let a := exposure empty_scene scene_is_empty tbl (with_layout c Flat) d_init in
+  let b := exposure empty_scene scene_is_empty tbl (with_layout c Hier) d_init in
+  t_buckets a = t_buckets b /\ t_inter a = t_inter b /\ t_scene a = t_scene b /\
+  t_data a = t_data b /\ t_bucket_path b = "/bucket"%string /\
+  t_bucket_path a = (if scene_is_empty (t_scene a) then "/" else "/bucket")%string.
 Proof. exact @layouts_agree. Qed.
 Print Assumptions C03_layouts_agree.
 
 (* ---- scene and processed data are what the detector holds after the last step, untouched *)
 Theorem C03_scene_data_passthrough :
-  forall (Scene Data : Type) (empty_scene : Scene) (scene_is_empty : Scene -> bool)
-         (c : config Scene Data) (d_init : det Scene Data) tr,
-  exposure empty_scene scene_is_empty c d_init = Some tr ->
+  forall (Scene Data : Type) (empty_scene : Scene) (scene_is_empty : Scene -> bool) (tbl : tables)
+         (c : config Scene Data) (d_init : det Scene Data),
   let final := last (ends_of empty_scene c d_init) (reset empty_scene (c_shape c) false d_init) in
-  t_scene tr = d_scene final /\ t_data tr = d_data final.
+  t_scene (exposure empty_scene scene_is_empty tbl c d_init) = d_scene final /\
+  t_data (exposure empty_scene scene_is_empty tbl c d_init) = d_data final.
 Proof. exact @scene_data_passthrough. Qed.
 Print Assumptions C03_scene_data_passthrough.
 
 (* ---- debug mode: the result without the debug nodes is the result of the run without debug, and the
    detector states do not depend on the flag *)
 Theorem C03_debug_conservative :
-  forall (Scene Data : Type) (empty_scene : Scene) (scene_is_empty : Scene -> bool)
+  forall (Scene Data : Type) (empty_scene : Scene) (scene_is_empty : Scene -> bool) (tbl : tables)
          (c : config Scene Data) (d_init : det Scene Data),
-  exposure empty_scene scene_is_empty (with_debug c false) d_init
-  = option_map strip_debug (exposure empty_scene scene_is_empty (with_debug c true) d_init)
+  exposure empty_scene scene_is_empty tbl (with_debug c false) d_init
+  = strip_debug (exposure empty_scene scene_is_empty tbl (with_debug c true) d_init)
   /\ forall b, ends_of empty_scene (with_debug c b) d_init = ends_of empty_scene c d_init.
 Proof.
   intros. split; [apply debug_conservative|]. intros b. apply debug_does_not_touch_states.
 Qed.
 Print Assumptions C03_debug_conservative.
 
-(* ---- debug mode: the node of every model but the first of its step holds exactly the buckets whose
-   values this model changed (changed_by: the visible buckets of the state after the model whose
-   values differ from, or that were not visible in, the state just before it) *)
-Theorem C03_debug_nodes_partial :
-  forall (Scene Data : Type) (m0 : mdl Scene Data) ms1 m ms2 i (d : det Scene Data) last,
-  let before := run_models i (m0 :: ms1) d in
-  nth_error (fst (debug_models i ((m0 :: ms1) ++ m :: ms2) d last)) (List.length (m0 :: ms1)) =
-  Some {| n_step := i; n_group := m_group m; n_name := m_name m;
-          n_vars := changed_by (view before) (view (m_fn m i before)) |}.
-Proof. exact @debug_node_is_changed_buckets. Qed.
-Print Assumptions C03_debug_nodes_partial.
+(* ---- debug mode, the FULL statement (refuted in round 1): for every program -- in-place or re-assigning
+   writers alike --, every schedule, every step and EVERY model, the first of a step included, the node of the
+   model holds exactly the buckets this model changed (changed_by: the visible buckets of the state after the
+   model whose values differ from, or that were not visible in, the state just before it), provided every
+   read-out copies the container's buffer (discharged for the code by C03_source_tables) *)
+Theorem C03_debug_nodes :
+  forall (Scene Data : Type) (empty_scene : Scene) (tbl : tables)
+         (c : config Scene Data) (n i : nat) (d : det Scene Data),
+  all_copy (tb_copies tbl) = true -> visible_std_b tbl = true ->
+  debug_steps empty_scene tbl c i n d = ideal_steps empty_scene c i n d.
+Proof.
+  intros. apply debug_steps_ideal.
+  - intros k. apply all_copy_every. assumption.
+  - unfold visible_std_b in H0. apply andb_prop in H0. destruct H0 as [Hp Hz].
+    apply pairs_eqb_eq in Hp. rewrite forallb_forall in Hz.
+    assert (Z : forall b, tb_skip_zero tbl b = bucket_eqb b Charge).
+    { intros b. apply eqb_prop. apply Hz. destruct b; simpl; tauto. }
+    intros s. unfold visible_t, visible. rewrite Hp. unfold id_pairs, all_buckets. simpl.
+    rewrite !Z. reflexivity.
+Qed.
+Print Assumptions C03_debug_nodes.
 
 Theorem C03_changed_by_meaning : forall before after b a,
   In (b, a) (changed_by before after) <->
@@ -154,85 +164,149 @@ Theorem C03_changed_by_meaning : forall before after b a,
 Proof. exact changed_by_spec. Qed.
 Print Assumptions C03_changed_by_meaning.
 
-(* ---- the FULL debug statement (every node, the first model of a step included, holds exactly the
-   buckets that model changed) is false of the code as written: the capture is compared with the
-   last capture of the PREVIOUS step, so the reset between two readouts is credited to the first
-   model of the next step (and a bucket rewritten with last step's values is not recorded) *)
-Definition C03_debug_nodes_full : Prop :=
-  forall (c : config payload payload),
-  let d0 := reset [] (c_shape c) false pdet0 in
-  let n := List.length (c_times c) in
-  map n_vars (debug_steps [] c 0 n d0 None) = map n_vars (ideal_steps [] c 0 n d0).
+(* ---- the hypotheses on the tables hold of the CODE: the tables regenerated from the current source tree
+   (translator/c03.py -> Gen_C03.v) say that every to_xarray copies, that the slice is labelled with
+   detector.absolute_time, that the five containers are exported and captured under their own names and that
+   only an all-zero charge is left out of a capture; and the constants of the model (dims, coordinate origins,
+   dtype conversion of each read-out, concatenation along `time` of (accumulated, step), first step taken as
+   it is, per-step order reset/run/read out/concatenate, the guarded dtype restoration of `image`, the keys of
+   the final tree with their guards, the sources of /scene /data /intermediate, the debug reference taken as a
+   deep copy before each model, np.allclose, the node path) are those of the source *)
+Theorem C03_source_tables : tables_ok src_tables = true.
+Proof. vm_compute. reflexivity. Qed.
+Print Assumptions C03_source_tables.
 
-Definition wit_models : list pmodel :=
-  [ {| pm_group := "photon_collection"; pm_name := "wp";
-       pm_actions := [AWrite {| w_bucket := Photon; w_dt := F64; w_waves := 0; w_per_step := [1; 5] |}] |};
-    {| pm_group := "charge_collection"; pm_name := "wx";
-       pm_actions := [AWrite {| w_bucket := Pixel; w_dt := F64; w_waves := 0; w_per_step := [3; 9] |}] |} ].
+Theorem C03_source_shape : shape_eqb src_shape shape_as_modelled = true.
+Proof. vm_compute. reflexivity. Qed.
+Print Assumptions C03_source_shape.
 
-Definition wit_config : config payload payload :=
-  {| c_shape := [1; 2]; c_start := 0; c_times := [8; 16]; c_nondestr := false; c_layout := Flat;
-     c_debug := true; c_models := map (mdl_of [1; 2]) wit_models |}.
+(* the reference of the debug comparison cannot be changed by the model that runs after it was taken: it is a deep
+   copy, or every read-out copies anyway *)
+Theorem C03_debug_reference_independent :
+  sf_debug_ref_deep src_shape || all_copy (tb_copies src_tables) = true.
+Proof. vm_compute. reflexivity. Qed.
+Print Assumptions C03_debug_reference_independent.
 
-Theorem C03_debug_nodes_refuted : ~ C03_debug_nodes_full.
-Proof. intros H. specialize (H wit_config). vm_compute in H. discriminate. Qed.
-Print Assumptions C03_debug_nodes_refuted.
+(* the paths of the model's tree are those the layout table gives *)
+Example C03_layout_table_is_the_models : forall l dbg,
+  layout_view src_shape l dbg = (@bucket_path l, @children l dbg).
+Proof. intros [|] [|]; vm_compute; reflexivity. Qed.
 
-(* ... and the charge recorded in a node is not a copy: a later in-place addition in the same step
-   rewrites the earlier record (both nodes show the final charge 5 + 100) *)
-Definition alias_models : list pmodel :=
-  [ {| pm_group := "charge_generation"; pm_name := "c1";
-       pm_actions := [AWrite {| w_bucket := Charge; w_dt := F64; w_waves := 0; w_per_step := [5] |}] |};
-    {| pm_group := "charge_generation"; pm_name := "c2";
-       pm_actions := [AWrite {| w_bucket := Charge; w_dt := F64; w_waves := 0; w_per_step := [100] |}] |} ].
+(* ---- the main statements at the tables of the code *)
+Theorem C03_slices_as_coded :
+  forall (Scene Data : Type) (empty_scene : Scene) (scene_is_empty : Scene -> bool)
+         (c : config Scene Data) (d_init : det Scene Data),
+  image_stable (map view (ends_of empty_scene c d_init)) ->
+  let t := exposure empty_scene scene_is_empty src_tables c d_init in
+  t_buckets t = combine (map (Z.add (c_start c)) (c_times c)) (map view (ends_of empty_scene c d_init)) /\
+  List.length (t_buckets t) = List.length (c_times c) /\
+  forall b, bucket_slices (t_buckets t) b =
+    combine (map (Z.add (c_start c)) (c_times c))
+            (map (fun d => get (view d) b) (ends_of empty_scene c d_init)).
+Proof.
+  intros Scene Data empty_scene scene_is_empty c d_init.
+  destruct (tables_ok_props src_tables C03_source_tables) as (_ & Hs & Hl & He & _).
+  apply C03_slices; assumption.
+Qed.
+Print Assumptions C03_slices_as_coded.
 
-Example C03_debug_charge_alias_witness :
-  let c := {| c_shape := [1; 1]; c_start := 0; c_times := [8]; c_nondestr := false; c_layout := Flat;
-              c_debug := true; c_models := map (mdl_of [1; 1]) alias_models |} in
-  map (fun n => map (fun ba => a_vals (snd ba)) (n_vars n)) (debug_steps [] c 0 1 (reset [] [1; 1] false pdet0) None)
-    = [[[105]]; [[105]]] /\
-  map (fun n => map (fun ba => a_vals (snd ba)) (n_vars n)) (ideal_steps [] c 0 1 (reset [] [1; 1] false pdet0))
-    = [[[5]]; [[105]]].
-Proof. vm_compute. split; reflexivity. Qed.
+Theorem C03_debug_nodes_as_coded :
+  forall (Scene Data : Type) (empty_scene : Scene) (c : config Scene Data) (n i : nat) (d : det Scene Data),
+  debug_steps empty_scene src_tables c i n d = ideal_steps empty_scene c i n d.
+Proof.
+  intros. apply C03_debug_nodes; vm_compute; reflexivity.
+Qed.
+Print Assumptions C03_debug_nodes_as_coded.
+
+(* ---- ... and they are needed.  Round-1 findings kept as witnesses of what a read-out WITHOUT a copy does:
+   (1) two in-place charge additions +5 then +100 in one step: both nodes show the final charge 105;
+   (2) a 3-D photon cube initialised by one model and added to in place by the next (the class of seeded
+       change C03-m3);
+   (3) a pixel array that survives the reset (non-destructive readout) and is added to in place at step 2:
+       the FIRST slice of the result follows it. *)
+Definition no_copy_of (k : ckind) : tables :=
+  {| tb_copies := fun k' => match k, k' with
+                            | KPhoton2, KPhoton2 | KPhoton3, KPhoton3 | KCharge, KCharge | KPixel, KPixel
+                            | KSignal, KSignal | KImage, KImage => false
+                            | _, _ => true
+                            end;
+     tb_label := LAbsolute; tb_exported := id_pairs; tb_visible := id_pairs;
+     tb_skip_zero := fun b => bucket_eqb b Charge |}.
+
+Definition wr (b : bucket) (waves : Z) (m : wmode) (ps : list Z) : action :=
+  AWrite {| w_bucket := b; w_dt := F64; w_waves := waves; w_mode := m; w_per_step := ps |}.
+
+Definition alias_models (b : bucket) (waves : Z) : list pmodel :=
+  [ {| pm_group := "charge_generation"; pm_name := "c1"; pm_actions := [wr b waves WIAdd [5; 7]] |};
+    {| pm_group := "charge_generation"; pm_name := "c2"; pm_actions := [wr b waves WIAdd [100; 200]] |} ].
+
+Definition alias_config (b : bucket) (waves : Z) (times : list Z) (nd : bool) : config payload payload :=
+  {| c_shape := [1; 1]; c_start := 0; c_times := times; c_nondestr := nd; c_layout := Flat;
+     c_debug := true; c_models := map (mdl_of [1; 1]) (alias_models b waves) |}.
+
+Definition node_values (ns : list inode) : list (list (list Z)) :=
+  map (fun n => map (fun ba => a_vals (snd ba)) (n_vars n)) ns.
+
+Example C03_copy_is_needed :
+  let d0 := reset [] [1; 1] false pdet0 in
+  (* (1) charge *)
+  node_values (debug_steps [] (no_copy_of KCharge) (alias_config Charge 0 [8] false) 0 1 d0) = [[[105]]; [[105]]] /\
+  node_values (debug_steps [] tables_as_coded (alias_config Charge 0 [8] false) 0 1 d0) = [[[5]]; [[105]]] /\
+  node_values (ideal_steps [] (alias_config Charge 0 [8] false) 0 1 d0) = [[[5]]; [[105]]] /\
+  (* (2) 3-D photon *)
+  node_values (debug_steps [] (no_copy_of KPhoton3) (alias_config Photon 2 [8] false) 0 1 d0)
+    = [[[105; 107]]; [[105; 107]]] /\
+  node_values (debug_steps [] tables_as_coded (alias_config Photon 2 [8] false) 0 1 d0)
+    = [[[5; 6]]; [[105; 107]]] /\
+  (* (3) first slice of a kept pixel array: 105 at the end of step 1, 105 + 7 + 200 at the end of step 2 *)
+  map (fun ls => option_map a_vals (s_pixel (snd ls)))
+      (t_buckets (exposure [] payload_is_empty (no_copy_of KPixel) (alias_config Pixel 0 [8; 16] true) pdet0))
+    = [Some [312]; Some [312]] /\
+  map (fun ls => option_map a_vals (s_pixel (snd ls)))
+      (t_buckets (exposure [] payload_is_empty tables_as_coded (alias_config Pixel 0 [8; 16] true) pdet0))
+    = [Some [105]; Some [312]].
+Proof. vm_compute. repeat split; reflexivity. Qed.
 
 (* ---- non-vacuity: an ordinary three-readout program meets the hypotheses, and the conclusions are
-   not trivial *)
+   not trivial; the first model of steps 2 and 3 is credited with what it changed only (round-1 finding
+   C03-debug-reset-attribution: the reset of `pixel` used to be credited to it) *)
 Definition ex_models : list pmodel :=
   [ {| pm_group := "photon_collection"; pm_name := "wp";
-       pm_actions := [AWrite {| w_bucket := Photon; w_dt := F32; w_waves := 2; w_per_step := [1; 20; 40] |}] |};
+       pm_actions := [AWrite {| w_bucket := Photon; w_dt := F32; w_waves := 2; w_mode := WAssign; w_per_step := [1; 20; 40] |}] |};
     {| pm_group := "charge_collection"; pm_name := "wx";
-       pm_actions := [AWrite {| w_bucket := Pixel; w_dt := F64; w_waves := 0; w_per_step := [3; 9; 27] |}] |};
+       pm_actions := [AWrite {| w_bucket := Pixel; w_dt := F64; w_waves := 0; w_mode := WAssign; w_per_step := [3; 9; 27] |}] |};
+    {| pm_group := "charge_collection"; pm_name := "wx2";
+       pm_actions := [AWrite {| w_bucket := Pixel; w_dt := F64; w_waves := 0; w_mode := WIAdd; w_per_step := [1; 1; 1] |}] |};
     {| pm_group := "readout_electronics"; pm_name := "wi";
-       pm_actions := [AWrite {| w_bucket := Image; w_dt := U16; w_waves := 0; w_per_step := [100; 200; 300] |};
+       pm_actions := [AWrite {| w_bucket := Image; w_dt := U64; w_waves := 0; w_mode := WAssign;
+                                w_per_step := [2 ^ 53 + 1; 200; 300] |};
                       AData "/probe/k" [7; 8; 9]] |} ].
 
-Definition ex_config (l : layout) (dbg : bool) : config payload payload :=
-  {| c_shape := [1; 2]; c_start := 4; c_times := [8; 16; 32]; c_nondestr := true; c_layout := l;
+Definition ex_config (l : layout) (dbg nd : bool) : config payload payload :=
+  {| c_shape := [1; 2]; c_start := 4; c_times := [8; 16; 32]; c_nondestr := nd; c_layout := l;
      c_debug := dbg; c_models := map (mdl_of [1; 2]) ex_models |}.
 
 Example C03_hyps_satisfiable :
-  StronglySorted Z.lt (c_times (ex_config Flat true)) /\
-  image_uniform (map view (ends_of [] (ex_config Flat true) pdet0)) /\
-  (exists t, exposure [] payload_is_empty (ex_config Flat true) pdet0 = Some t /\
-     bucket_slices (t_buckets t) Image =
-       [(12, Some {| a_dt := U16; a_shape := [1; 2]; a_vals := [100; 101] |});
-        (20, Some {| a_dt := U16; a_shape := [1; 2]; a_vals := [200; 201] |});
-        (36, Some {| a_dt := U16; a_shape := [1; 2]; a_vals := [300; 301] |})] /\
-     t_data t = [("/probe/k"%string, [9])] /\
-     option_map (map (fun n => map fst (n_vars n))) (t_inter t) =
-       Some [[Photon]; [Pixel]; [Image]; [Photon]; [Pixel]; [Image]; [Photon]; [Pixel]; [Image]]).
+  image_uniform (map view (ends_of [] (ex_config Flat true false) pdet0)) /\
+  let t := exposure [] payload_is_empty tables_as_coded (ex_config Flat true false) pdet0 in
+  bucket_slices (t_buckets t) Image =
+    [(12, Some {| a_dt := U64; a_shape := [1; 2]; a_vals := [2 ^ 53 + 1; 2 ^ 53 + 2] |});
+     (20, Some {| a_dt := U64; a_shape := [1; 2]; a_vals := [200; 201] |});
+     (36, Some {| a_dt := U64; a_shape := [1; 2]; a_vals := [300; 301] |})] /\
+  t_data t = [("/probe/k"%string, [9])] /\
+  option_map (map (fun n => map fst (n_vars n))) (t_inter t) =
+    Some [[Photon]; [Pixel]; [Pixel]; [Image]; [Photon]; [Pixel]; [Pixel]; [Image]; [Photon]; [Pixel]; [Pixel]; [Image]].
 Proof.
-  split; [simpl; repeat constructor|].
   split.
-  - right. exists U16. split; [reflexivity|]. intros s Hs. vm_compute in Hs.
-    repeat (destruct Hs as [<-|Hs]; [eexists; split; [reflexivity|]; split; [reflexivity|];
-      intros v Hv; simpl in Hv; repeat (destruct Hv as [<-|Hv]; [simpl; lia|]); contradiction|]).
-    contradiction.
-  - eexists. split; [vm_compute; reflexivity|]. vm_compute. repeat split; reflexivity.
+  - right. exists U64. intros s Hs. vm_compute in Hs.
+    repeat (destruct Hs as [<-|Hs]; [eexists; split; reflexivity|]). contradiction.
+  - vm_compute. repeat split; reflexivity.
 Qed.
 
-(* the schedule hypothesis is needed: with a repeated label the record is not complete *)
-Example C03_duplicate_label_loses_a_slice :
-  assemble [(1, u64_img 5); (1, u64_img 5); (2, u64_img 6)] = Some [(1, u64_img 5); (2, u64_img 6)] /\
-  assemble [(1, u64_img 5); (1, u64_img 6)] = None.
-Proof. vm_compute. split; reflexivity. Qed.
+(* an image whose dtype changes between readouts is cast to the dtype of the last one (one variable has one
+   dtype): the hypothesis of C03_image_exact is needed *)
+Example C03_image_dtype_change :
+  let img t v := {| s_photon := None; s_charge := None; s_pixel := None; s_signal := None;
+                    s_image := Some {| a_dt := t; a_shape := [1; 1]; a_vals := [v] |} |} in
+  assemble [(1, img U32 70000); (2, img U16 6)] = [(1, img U16 4464); (2, img U16 6)].
+Proof. vm_compute. reflexivity. Qed.
